@@ -357,18 +357,39 @@ def np_concatenate(it, arrs, axis=0, **k):
         offs.append(V.add(offs[-1], l.shape[0]))
 
     def elem(i, ls=ls, offs=offs):
-        out = None
-        for j in range(len(ls) - 1, -1, -1):
-            v = ls[j].at(V.sub(i[0], offs[j]))
-            out = v if out is None else V.ite(V.cmp('<', i[0], offs[j + 1]), v, out) if j < len(ls) - 1 else v
-            if j < len(ls) - 1:
-                pass
-        # build properly: first block whose end exceeds i
-        res = ls[-1].at(V.sub(i[0], offs[-2]))
-        for j in range(len(ls) - 2, -1, -1):
-            res = V.ite(V.cmp('<', i[0], offs[j + 1]), ls[j].at(V.sub(i[0], offs[j])), res)
-        return res
+        # first block whose end exceeds i; blocks are only evaluated where the (possibly concrete) comparison allows them to be selected
+        def from_block(j):
+            if j == len(ls) - 1:
+                return ls[j].at(V.sub(i[0], offs[j]))
+            c = V.cmp('<', i[0], offs[j + 1])
+            c = V.simp(c) if is_sym(c) else c
+            if c is True:
+                return ls[j].at(V.sub(i[0], offs[j]))
+            if c is False:
+                return from_block(j + 1)
+            return V.ite(c, ls[j].at(V.sub(i[0], offs[j])), from_block(j + 1))
+        return from_block(0)
     return LArr((offs[-1],), elem, A._result_kind(ls))
+
+
+@np_fn('array_split')
+def np_array_split(it, a, sections, axis=0):
+    """contract (integer number of sections k, 1-D): k consecutive views; the first n % k have n // k + 1 entries, the others n // k"""
+    a = a if is_arr(a) else to_carr(a)
+    k = conc(sections)
+    if not isinstance(k, int) or a.ndim != 1 or axis != 0:
+        raise Unsupported('array_split form')
+    if k <= 0:
+        raise PyExc('ValueError', 'number sections must be larger than 0.')
+    n = a.shape[0]
+    base, rem = V.floordiv(n, k), V.mod(n, k)
+    out = []
+    for i in range(k):
+        lo = V.add(V.mul(i, base), V.minv(i, rem))
+        hi = V.add(V.mul(i + 1, base), V.minv(i + 1, rem))
+        lo, hi = (V.simp(lo) if is_sym(lo) else lo), (V.simp(hi) if is_sym(hi) else hi)
+        out.append(A.arr_getitem(it.ctx, a, slice(lo, hi)))
+    return out
 
 
 @np_fn('vstack')
